@@ -1,5 +1,104 @@
-import Mkdb.Spec.Tables
-import Mkdb.Spec.Shape
-import Mkdb.Model.Engine
+import Mkdb.Proofs.Unchanged
+/-!
+# C14 — a statement that returns an error changes nothing
+
+Property theorems only, about the heap model of the storage engine (`Mkdb.Store`, `Mkdb.Engine`),
+which is compared with the implementation page by page.  "Changes nothing" is `SameData`
+(Mkdb/Spec/Unchanged.lean): every page the engine can see, every dirty bit, the data file, the
+header on disk and the fields of the in-memory header that locate data are what they were, and
+the log is untouched - so the same holds after a restart (recovery reads exactly these).  The
+row-id and LSN counters may advance, and pages may have been pulled into the cache by reading.
+Quantifier: every well-filed store (`Filed`), every table, every row.
+
+What the theorems do **not** say is as important, and is stated here rather than hidden:
+* `C14_insert_kth_row` is the *exact* behaviour for a multi-row INSERT whose k-th row (k >= 2) is
+  refused: the statement returns the error and logs nothing, but the rows before it stay applied
+  in the cache.  That is the known finding `db:failed-statement-applied-row-prefix` (the
+  implementation does the same; not repaired, see KNOWN_FINDINGS.txt), so C14 is proved for the
+  first row and relative to the prefix state for later rows.
+* UPDATE: only `update_err` under a uniqueness hypothesis, no statement-level theorem (partial).
+* For CREATE TABLE five error codes (`BodyErr`) could in principle still come out of the body on a
+  catalog that is itself damaged; excluding them needs catalog invariants that are not proved.
+-/
+namespace Mkdb.Engine
+open Mkdb.Store Mkdb.Tuple Mkdb.Sql
+
+/-- **C14.insert_first_row**: an INSERT whose first row is refused - unknown table, column-count
+mismatch, type mismatch, out-of-range integer, duplicate key - returns that error, leaves the log
+untouched and changes nothing in the store. -/
+theorem C14_insert_first_row (db : DB) (table : Bytes) (cols : List Bytes) (r : List Val)
+    (rest : List (List Val)) (e : SErr) (s' : Store) (hf : Filed db.store)
+    (h : insert table (cols.map bytesToName) r db.store = .err e s') (he : Refusal e) :
+    ∃ db', evalInsert db table cols (r :: rest) = .err (.store e) db' ∧
+      db'.wal = db.wal ∧ Filed db'.store ∧ SameData db.store db'.store :=
+  evalInsert_first_row_refused db table cols r rest e s' hf h he
+
+/-- **C14.insert_oversized_row**: the same for a row that is too large, for every table whose name fits
+the catalog. -/
+theorem C14_insert_oversized_row (table : Bytes) (cols : List String) (vals : List Val) (s s' : Store)
+    (hf : Filed s) (hname : table.length + 14 ≤ Mkdb.Generated.c_maxValueSize)
+    (h : insert table cols vals s = .err .rowTooLarge s') : Filed s' ∧ SameData s s' :=
+  insert_err_rowTooLarge table cols vals s s' hf hname h
+
+/-- **C14.insert_kth_row** (the exact statement behind the known finding): when the rows before the
+refused one were applied, taking the store to `sk`, the statement returns the error and the log is
+untouched, and relative to `sk` the refused row changed nothing - but `sk`, not the store before
+the statement, is what the cache holds. -/
+theorem C14_insert_kth_row (db : DB) (table : Bytes) (cols : List Bytes)
+    (good : List (List Val)) (bad : List Val) (rest : List (List Val))
+    (logs : List WalRec) (sk s' : Store) (e : SErr) (hf : Filed sk)
+    (hgood : Applies table (cols.map bytesToName) good db.store logs sk)
+    (hbad : insert table (cols.map bytesToName) bad sk = .err e s') (he : Refusal e) :
+    ∃ db', evalInsert db table cols (good ++ bad :: rest) = .err (.store e) db' ∧
+      db'.wal = db.wal ∧ Filed db'.store ∧ SameData sk db'.store :=
+  evalInsert_kth_row_refused db table cols good bad rest logs sk s' e hf hgood hbad he
+
+/-- **C14.create_table**: CREATE TABLE refused because the table exists, a column length is out of
+range, or a catalog row would not fit a page cell (a long table or column name) changes nothing
+and logs nothing. -/
+theorem C14_create_table (db : DB) (name : Bytes) (cols : List Sql.ColDef)
+    (flushOrder : List Nat) (doFlush : Bool) (e : SErr) (s' : Store) (hf : Filed db.store)
+    (h : createTable (cols.map colTypeToField) name flushOrder doFlush db.store = .err e s')
+    (he : e = .tableAlreadyExist ∨ e = .intOutOfRange ∨ e = .rowTooLarge ∨ e = .typeMismatch ∨
+          e = .colCountMismatch) :
+    ∃ db', evalCreateTable db name cols flushOrder doFlush = .err (.store e) db' ∧
+      db'.wal = db.wal ∧ Filed db'.store ∧ SameData db.store db'.store :=
+  evalCreateTable_refused db name cols flushOrder doFlush e s' hf h he
+
+/-- **C14.delete**: a DELETE that fails at its first selected row changes nothing. -/
+theorem C14_delete (db : DB) (table : Bytes) (where_ : Option Sql.Cond)
+    (rows : List (Nat × List Val)) (schema : List FieldDef) (s0 : Store)
+    (r : Nat × List Val) (rest : List (Nat × List Val)) (e : SErr) (s' : Store)
+    (hf : Filed db.store)
+    (hfetch : fetchTable table db.store = .ok (rows, schema) s0)
+    (hsel : filterIds where_ (schema.map fun fd => ⟨[], fd.name.toUTF8.toList⟩) rows = .ok (r :: rest))
+    (h : markDeleted table r.1 s0 = .err e s') :
+    evalDelete db table where_ = .err (.store e) { db with store := s' } ∧
+      Filed s' ∧ SameData db.store s' :=
+  evalDelete_first_row_err db table where_ rows schema s0 r rest e s' hf hfetch hsel h
+
+end Mkdb.Engine
+
 namespace Mkdb.Store
+/-- **C14.create_table_long_column_witness** (non-vacuity, and the regression witness of a repaired
+defect): on an empty catalog, CREATE TABLE with a 400-byte name in its *second* column is refused
+and the store is exactly the one before it, with the page table pulled into the cache - no root
+page allocated, no `sys_pages` entry, no schema row of the first column left behind. -/
+theorem C14_create_table_long_column_witness :
+    createTable [⟨"a", .int, 0⟩, ⟨longColumn, .int, 0⟩] [116] [] true emptyCatalog
+        = .err .rowTooLarge emptyCatalogRead ∧
+      Filed emptyCatalogRead ∧ SameData emptyCatalog emptyCatalogRead :=
+  createTable_longColumn_unchanged
+
+/-- non-vacuity: a refused INSERT on a concrete well-filed store meets the hypotheses -/
+example : Filed emptyCatalog ∧ ∃ s', insert [116] [] [] emptyCatalog = .err .tableNotExist s' := by
+  refine ⟨emptyCatalog_filed, ?_⟩
+  have h := insertNoTableCheck_true
+  unfold insertNoTableCheck at h
+  split at h
+  · rename_i e s' heq
+    simp only [beq_iff_eq] at h
+    subst h
+    exact ⟨s', heq⟩
+  · cases h
 end Mkdb.Store
